@@ -210,6 +210,30 @@ def iou_3d(b1, b2) -> float:
     return vi / (v1 + v2 - vi)
 
 
+def collinear_edges(p1: Sequence[Vec], p2: Sequence[Vec], eps_rel: float = 1e-9) -> bool:
+    """True iff some edge of p1 and some edge of p2 lie on one line within eps_rel * (1 + extent) - the input class on
+    which the GEOS overlay behind the library's IoU is known to lose the whole intersection (known finding D16)."""
+    ext = 1.0 + max(max(abs(x), abs(y)) for x, y in list(p1) + list(p2))
+    eps = eps_rel * ext
+    for i in range(len(p1)):
+        a, b = p1[i], p1[(i + 1) % len(p1)]
+        for j in range(len(p2)):
+            c, d = p2[j], p2[(j + 1) % len(p2)]
+            ux, uy = d[0] - c[0], d[1] - c[1]
+            n = math.hypot(ux, uy)
+            if n == 0.0:
+                continue
+            da = abs(ux * (a[1] - c[1]) - uy * (a[0] - c[0])) / n
+            db = abs(ux * (b[1] - c[1]) - uy * (b[0] - c[0])) / n
+            if da <= eps and db <= eps:
+                return True
+    return False
+
+
+def boxes_collinear(b1, b2) -> bool:
+    return collinear_edges(box_corners(b1[0], b1[1], b1[3], b1[4], b1[5]), box_corners(b2[0], b2[1], b2[3], b2[4], b2[5]))
+
+
 def center_distance(b1, b2) -> float:
     return math.sqrt((b1[0] - b2[0]) ** 2 + (b1[1] - b2[1]) ** 2 + (b1[2] - b2[2]) ** 2)
 
